@@ -198,7 +198,7 @@ def run_model(
     """Run TLC on specs/<module>.tla with specs/<cfg>. Returns a dict with stdout, stats."""
     wd = workdir(tag)
     meta = os.path.join(wd, 'meta')
-    cmd = java_cmd(xmx, props) + [
+    cmd = java_cmd(xmx, tuple(props) + (f'-Djava.io.tmpdir={wd}',)) + [
         '-config',
         cfg,
         '-workers',
@@ -243,13 +243,14 @@ def run_model(
     return res
 
 
-def _judge_chunk(args):
-    module, cfg, path, meta, xmx, extra_env = args
-    cmd = java_cmd(xmx) + [
+def _judge_batch(args):
+    module, cfg, path, wd, xmx, extra_env, workers, nchains = args
+    meta = os.path.join(wd, 'meta' + os.path.basename(path))
+    cmd = java_cmd(xmx, (f'-Djava.io.tmpdir={wd}',)) + [
         '-config',
         cfg,
         '-workers',
-        '1',
+        str(workers),
         '-metadir',
         meta,
         '-noGenerateSpecTE',
@@ -257,6 +258,7 @@ def _judge_chunk(args):
     ]
     e = dict(os.environ)
     e['CASES'] = path
+    e['NCHAINS'] = str(nchains)
     e.update(extra_env)
     t0 = time.time()
     p = subprocess.run(cmd, cwd=SPECS, env=e, capture_output=True, text=True)
@@ -270,72 +272,64 @@ def run_judge(
     module='Judge',
     cfg='Judge.cfg',
     jobs=16,
-    chunk_cases=None,
-    chunk_bytes=1_500_000,
+    batch_bytes=60_000_000,
     tag='judge',
-    xmx='3g',
+    xmx='20g',
     keep=False,
     extra_env=None,
 ):
     """Validate recorded cases with the trace specification.
 
+    One JVM per batch of <= batch_bytes of JSON (JVM start-up is expensive here); inside a
+    batch the cases are cut into `jobs` chains judged in parallel by TLC's workers.
     Returns (verdicts, stats): verdicts is a list of (case_id, step, [clause,...]) for
-    failing steps; stats has TLC's state counts summed over chunks. Raises
-    MachineryError if any chunk was not fully consumed.
+    failing steps. Raises MachineryError if any batch was not fully consumed.
     """
     wd = workdir(tag)
-    chunks = []
+    batches = []
     cur, size = [], 0
     for c in cases:
         s = json.dumps(c, separators=(',', ':'))
-        if cur and (
-            size + len(s) > chunk_bytes or (chunk_cases and len(cur) >= chunk_cases)
-        ):
-            chunks.append(cur)
+        if cur and size + len(s) > batch_bytes:
+            batches.append(cur)
             cur, size = [], 0
         cur.append(s)
         size += len(s)
     if cur:
-        chunks.append(cur)
-    # balance: if fewer chunks than jobs, split further
-    while 0 < len(chunks) < jobs and max(len(c) for c in chunks) > 8:
-        chunks.sort(key=len)
-        big = chunks.pop()
-        h = len(big) // 2
-        chunks += [big[:h], big[h:]]
+        batches.append(cur)
     jobs_args = []
-    for n, ch in enumerate(chunks):
-        path = os.path.join(wd, f'chunk{n}.json')
+    for n, ch in enumerate(batches):
+        path = os.path.join(wd, f'batch{n}.json')
         with open(path, 'w') as f:
             f.write('[' + ',\n'.join(ch) + ']')
         jobs_args.append(
-            (module, cfg, path, os.path.join(wd, f'meta{n}'), xmx, extra_env or {})
+            (module, cfg, path, wd, xmx, extra_env or {}, jobs, max(1, min(jobs * 4, len(ch))))
         )
     verdicts = []
-    stats = {'generated': 0, 'distinct': 0, 'chunks': len(chunks), 'tlc_wall_s': 0.0}
+    stats = {'generated': 0, 'distinct': 0, 'chunks': len(batches), 'tlc_wall_s': 0.0}
     notes = []
     drift = []
     t0 = time.time()
-    with concurrent.futures.ThreadPoolExecutor(max_workers=jobs) as ex:
-        for path, rc, out, err, dt in ex.map(_judge_chunk, jobs_args):
-            if 'Model checking completed. No error has been found.' not in out:
-                tail = '\n'.join(out.strip().split('\n')[-30:])
-                raise MachineryError(
-                    f'trace validation did not complete for {path} (rc={rc}):\n{tail}\n{err[-1500:]}'
-                )
-            m = None
-            for m in _STATS.finditer(out):
-                pass
-            if m:
-                stats['generated'] += int(m.group(1))
-                stats['distinct'] += int(m.group(2))
-            for v in printed_values(out):
-                if isinstance(v, list) and v and v[0] == 'VERDICT':
-                    verdicts.append((v[1], v[2], sorted(v[3])))
-                elif isinstance(v, list) and v and v[0] == 'DRIFT':
-                    drift.append((v[1], v[2], sorted(v[3])))
-                elif isinstance(v, list) and v and v[0] == 'NOTE':
-                    notes.append(v[1:])
+    for ja in jobs_args:
+        path, rc, out, err, dt = _judge_batch(ja)
+        if 'Model checking completed. No error has been found.' not in out:
+            tail = '\n'.join(out.strip().split('\n')[-30:])
+            raise MachineryError(
+                f'trace validation did not complete for {path} (rc={rc}):\n{tail}\n{err[-1500:]}'
+            )
+        m = None
+        for m in _STATS.finditer(out):
+            pass
+        if m:
+            stats['generated'] += int(m.group(1))
+            stats['distinct'] += int(m.group(2))
+        for v in printed_values(out):
+            if isinstance(v, list) and v and v[0] == 'VERDICT':
+                verdicts.append((v[1], v[2], sorted(v[3])))
+            elif isinstance(v, list) and v and v[0] == 'DRIFT':
+                drift.append((v[1], v[2], sorted(v[3])))
+            elif isinstance(v, list) and v and v[0] == 'NOTE':
+                notes.append(v[1:])
     stats['tlc_wall_s'] = time.time() - t0
     stats['notes'] = notes
     stats['drift'] = drift
